@@ -94,7 +94,7 @@ func C21(c *core.Ctx) {
 		"for each: full traversal after Rewind, Seek from every key and key+-1 version and random keys, then a random walk of " +
 		"Seek/Next/Rewind compared with a reference cursor; distinct = (numInputs, direction, has-empty-input, has-duplicates) classes")
 	r := c.Rand("c21")
-	n := c.Pick(4000, 500000)
+	n := c.Pick(40000, 500000)
 	for i := 0; i < n; i++ {
 		mc := genMergeCase(r)
 		c.Eval(1)
